@@ -21,6 +21,7 @@ sample-from-prior module.sample_from_prior(name) stores the sampled value (same 
 import copy
 import inspect
 import itertools
+import logging
 import math
 
 import numpy as np
@@ -197,8 +198,8 @@ def raw_values(cfg, dtype, chunk, nchunks, stride, c):
             extra.append(f64_lattice())
     if extra:
         x = np.concatenate([x] + extra)
-    x = np.unique(x[np.isfinite(x)])  # sorted ascending; -0.0 and 0.0 collapse
-    return x
+        x = np.unique(x[np.isfinite(x)])  # sorted ascending; -0.0 and 0.0 collapse
+    return x  # the strided lattice alone is already strictly increasing
 
 
 def transform_cells(tier):
@@ -223,6 +224,9 @@ def _ulp_at(m, tdt):
     return float(np.spacing(npdt(abs(m))))
 
 
+BLOCK = 1 << 17  # points per block: the dozen elementwise passes of the oracle stay in cache
+
+
 def run_transform(cell, seed):
     cfg, dtype = cell["cfg"], cell["dtype"]
     tdt = F32 if dtype == "float32" else F64
@@ -231,99 +235,131 @@ def run_transform(cell, seed):
     feats = {"what": "transform", "cls": cfg["cls"], "param": cfg["tf"], "bounds": bdesc, "tensor_bounds": cfg["tensor"], "dtype": dtype,
              "chunk": cell["chunk"]}
     c = build_constraint(cfg, dtype)
-    x = torch.from_numpy(raw_values(cfg, dtype, cell["chunk"], cell["nchunks"], cell["stride"], c))
+    xs = torch.from_numpy(raw_values(cfg, dtype, cell["chunk"], cell["nchunks"], cell["stride"], c))
     lo, hi = c.lower_bound, c.upper_bound
     bshape = torch.broadcast_shapes(lo.shape, hi.shape)
-    X = x.reshape(-1, *([1] * len(bshape))) if cfg["tensor"] else x
-    notes = {"transform_points": int(x.numel() * max(1, int(np.prod(bshape)) if cfg["tensor"] else 1))}
+    ncol = max(1, int(np.prod(bshape))) if cfg["tensor"] else 1
+    notes = {"transform_points": int(xs.numel() * ncol), "saturated_points": 0, "interior_points": 0}
     eps = torch.finfo(tdt).eps
     sat_thr = -math.log(4 * eps)
-    sigs = []
+    fin = [t for t in (lo, hi) if torch.isfinite(t).all()]
+    Bmag = None  # magnitude of the finite bounds (per column for tensor bounds)
+    for t in fin:
+        Bmag = t.abs() if Bmag is None else torch.maximum(Bmag, t.abs())
+    unit = _ulp_at(float(Bmag.max()) if Bmag is not None else 0.0, tdt)
+    check_hi, check_lo = bool(torch.isfinite(hi).all()), bool(torch.isfinite(lo).all())
+    st = {"nan_raw": None, "over": 0.0, "over_raw": None, "over_n": 0, "over_sat": True, "under": 0.0, "under_raw": None, "under_n": 0,
+          "under_sat": True, "drop": 0.0, "drop_at": None, "drop_thr": True, "inf": 0, "rt": 0.0, "rt_at": None, "dtype_differs": 0}
+    block = max(1024, BLOCK // ncol)
+    prev_x, prev_y = None, None
     with torch.no_grad():
-        y = None
-        with fails.guard("transform"):
-            y = c.transform(X)
-        if y is not None:
+        for b0 in range(0, xs.numel(), block):
+            x = xs[b0:b0 + block]
+            X = x.reshape(-1, *([1] * len(bshape))) if cfg["tensor"] else x
+            try:
+                y = c.transform(X)
+            except Exception as e:  # noqa: BLE001
+                fails.add("transform", util.exc_str(e), f"raw block starting at {x[0].item()!r}")
+                break
             if y.dtype != tdt:
-                notes["result_dtype_differs"] = 1
-            Xb = X.expand(y.shape) if X.dim() == y.dim() else X
+                st["dtype_differs"] = 1
+            yy = y.reshape(x.numel(), -1)
             # --- never NaN
-            nan = torch.isnan(y)
-            if nan.any():
-                i = nan.reshape(x.numel(), -1).any(-1).nonzero()[0].item()
-                fails.add("nan", "transform(finite raw) is NaN err=nan", f"raw={x[i].item()!r} bounds={bdesc}")
+            if torch.isnan(y).any() and st["nan_raw"] is None:
+                st["nan_raw"] = x[torch.isnan(yy).any(-1).nonzero()[0].item()].item()
             # --- closed interval
-            mags = [float(t.abs().max()) for t in (lo, hi) if torch.isfinite(t).all()] + \
-                   [float(t[torch.isfinite(t)].abs().max()) for t in (lo, hi) if (not torch.isfinite(t).all()) and torch.isfinite(t).any()]
-            unit = _ulp_at(max(mags) if mags else 0.0, tdt)
-            for side, bad, excess in (("upper", y > hi, y - hi), ("lower", y < lo, lo - y)):
-                if bad.any():
-                    ex = torch.where(bad, excess, torch.zeros_like(excess))
-                    emax = float(ex.max())
-                    rows = bad.reshape(x.numel(), -1).any(-1)
+            for side, chk, bound in (("over", check_hi, hi), ("under", check_lo, lo)):
+                if not chk:
+                    continue
+                ex = (y - bound) if side == "over" else (bound - y)
+                m = float(ex.max())
+                if m > 0:
+                    rows = (ex > 0).reshape(x.numel(), -1).any(-1)
                     raws = x[rows]
-                    at_sat = bool((raws >= sat_thr).all()) if side == "upper" else bool((raws <= -sat_thr).all())
-                    if emax <= 2 * unit and at_sat:
-                        sym = f"exceeds {side} by <= 2 ulp at saturation err={emax:.3e}"
-                    else:
-                        sym = f"outside the closed interval ({side} side) err={emax:.3e}"
-                    fails.add("bounds", sym, f"first raw={raws[0].item()!r} n={int(bad.sum())} bounds={bdesc} ulp(max|bound|)={unit:.3e}")
-                    sigs.append("out-" + side)
-            inf = torch.isinf(y)
-            if inf.any():
-                notes["infinite_images"] = int(inf.sum())
-                sigs.append("inf")
-            # --- monotone
-            if x.numel() > 1:
-                yy = y.reshape(x.numel(), -1)
-                d = yy[1:] - yy[:-1]
-                d = torch.where(torch.isnan(d), torch.zeros_like(d), d)
-                if (d < 0).any():
-                    drop = float((-d).max())
-                    i = (d < 0).any(-1).nonzero()[0].item()
+                    st[side] = max(st[side], m)
+                    st[side + "_n"] += int((ex > 0).sum())
+                    if st[side + "_raw"] is None:
+                        st[side + "_raw"] = raws[0].item()
+                    st[side + "_sat"] &= bool((raws >= sat_thr).all()) if side == "over" else bool((raws <= -sat_thr).all())
+            has_inf = bool(torch.isinf(y).any())
+            if has_inf:
+                st["inf"] += int(torch.isinf(y).sum())
+            # --- monotone (within the block and across the block border)
+            ycat, xcat = (yy, x) if prev_y is None else (torch.cat([prev_y, yy]), torch.cat([prev_x, x]))
+            if ycat.shape[0] > 1:
+                d = ycat[1:] - ycat[:-1]
+                if has_inf:
+                    d = torch.where(torch.isnan(d), torch.zeros_like(d), d)
+                dmin = float(d.min())
+                if dmin < 0:
                     rows = (d < 0).any(-1).nonzero().reshape(-1)
-                    at_thr = bool(((x[rows].abs() - 20.0).abs() <= 1e-12).all() | ((x[rows + 1].abs() - 20.0).abs() <= 1e-12).all())
-                    thr_gap = math.log1p(math.exp(-20.0))
-                    if cfg["tf"] == "softplus" and at_thr and drop <= thr_gap * (1 + 1e-6) + 2 * unit:
-                        sym = f"decreases by <= log1p(exp(-20)) = 2.06e-9 across the softplus threshold |raw| = 20 err={drop:.3e}"
-                    else:
-                        sym = f"decreases along increasing raw err={drop:.3e}"
-                    fails.add("monotone", sym,
-                              f"raw {x[i].item()!r} -> {x[i + 1].item()!r}: {yy[i].reshape(-1)[0].item()!r} -> {yy[i + 1].reshape(-1)[0].item()!r}")
-                    sigs.append("nonmono")
-            sat_hi = int((y == hi).sum())
-            sat_lo = int((y == lo).sum())
-            notes["saturated_points"] = sat_hi + sat_lo
-            if sat_hi:
-                sigs.append("sat-hi")
-            if sat_lo:
-                sigs.append("sat-lo")
+                    if -dmin > st["drop"]:
+                        i = int(rows[0])
+                        st["drop_at"] = (xcat[i].item(), xcat[i + 1].item(), ycat[i].reshape(-1)[0].item(), ycat[i + 1].reshape(-1)[0].item())
+                    st["drop"] = max(st["drop"], -dmin)
+                    st["drop_thr"] &= bool((((xcat[rows].abs() - 20.0).abs() <= 1e-12) | ((xcat[rows + 1].abs() - 20.0).abs() <= 1e-12)).all())
+            prev_x, prev_y = x[-1:], yy[-1:]
+            notes["saturated_points"] += int((y == hi).sum()) + int((y == lo).sum())
             # --- round trip on the interior (float64 only)
             if tdt == F64:
-                with fails.guard("roundtrip"):
+                try:
                     r = c.inverse_transform(y)
-                    dT = _ref_derivative(cfg, lo, hi, Xb)
-                    scale = y.abs()
-                    for t in (lo, hi):
-                        scale = torch.maximum(scale, torch.where(torch.isfinite(t), t.abs(), torch.zeros_like(t)).expand(y.shape))
-                    ref_mag = torch.clamp(Xb.abs(), min=1.0)
-                    draw = 8 * torch.clamp(eps * scale, min=5e-324) / dT  # ulp of the image; never below the subnormal spacing
-                    interior = torch.isfinite(y) & (y > lo) & (y < hi) & (draw <= 1e-7 * ref_mag)
-                    notes["interior_points"] = int(interior.sum())
-                    err = ((r - Xb).abs() / ref_mag)
+                except Exception as e:  # noqa: BLE001
+                    fails.add("roundtrip", util.exc_str(e), "")
+                    break
+                Xb = X.expand(y.shape) if X.dim() == y.dim() else X
+                dT = _ref_derivative(cfg, lo, hi, Xb)
+                scale = y.abs() if Bmag is None else torch.maximum(y.abs(), Bmag)
+                ref_mag = torch.clamp(Xb.abs(), min=1.0)
+                draw = 8 * torch.clamp(eps * scale, min=5e-324) / dT  # 8 ulp of the image (never below the subnormal spacing) in raw units
+                interior = (y > lo) & (y < hi) & (draw <= 1e-7 * ref_mag)
+                notes["interior_points"] += int(interior.sum())
+                err = (r - Xb).abs() / ref_mag
+                bad = interior & ~(err <= 1e-6)
+                if bad.any():
                     err = torch.where(torch.isnan(err), torch.full_like(err, float("inf")), err)
-                    err = torch.where(interior, err, torch.zeros_like(err))
-                    if (err > 1e-6).any():
-                        j = int(err.argmax())
-                        fails.add("roundtrip", f"inverse_transform(transform(raw)) != raw err={float(err.max()):.3e}",
-                                  f"raw={Xb.reshape(-1)[j].item()!r} image={y.reshape(-1)[j].item()!r} back={r.reshape(-1)[j].item()!r} bounds={bdesc}")
-                        sigs.append("rt")
-                    if notes["interior_points"]:
-                        sigs.append("interior")
+                    err = torch.where(bad, err, torch.zeros_like(err))
+                    j = int(err.argmax())
+                    if float(err.max()) > st["rt"]:
+                        st["rt"] = float(err.max())
+                        st["rt_at"] = (Xb.reshape(-1)[j].item(), y.reshape(-1)[j].item(), r.reshape(-1)[j].item())
+    sigs = []
+    if st["dtype_differs"]:
+        notes["result_dtype_differs"] = 1
+    if st["nan_raw"] is not None:
+        fails.add("nan", "transform(finite raw) is NaN err=nan", f"raw={st['nan_raw']!r} bounds={bdesc}")
+    for side, name in (("over", "upper"), ("under", "lower")):
+        if st[side] > 0:
+            if st[side] <= 2 * unit and st[side + "_sat"]:
+                sym = f"exceeds {name} by <= 2 ulp at saturation err={st[side]:.3e}"
+            else:
+                sym = f"outside the closed interval ({name} side) err={st[side]:.3e}"
+            fails.add("bounds", sym, f"first raw={st[side + '_raw']!r} n={st[side + '_n']} bounds={bdesc} ulp(max|bound|)={unit:.3e}")
+            sigs.append("out-" + name)
+    if st["inf"]:
+        notes["infinite_images"] = st["inf"]
+        sigs.append("inf")
+    if st["drop"] > 0:
+        thr_gap = math.log1p(math.exp(-20.0))
+        if cfg["tf"] == "softplus" and st["drop_thr"] and st["drop"] <= thr_gap * (1 + 1e-6) + 2 * unit:
+            sym = f"decreases by <= log1p(exp(-20)) = 2.06e-9 across the softplus threshold |raw| = 20 err={st['drop']:.3e}"
+        else:
+            sym = f"decreases along increasing raw err={st['drop']:.3e}"
+        a = st["drop_at"]
+        fails.add("monotone", sym, f"raw {a[0]!r} -> {a[1]!r}: {a[2]!r} -> {a[3]!r}")
+        sigs.append("nonmono")
+    if st["rt"] > 0:
+        a = st["rt_at"]
+        fails.add("roundtrip", f"inverse_transform(transform(raw)) != raw err={st['rt']:.3e}", f"raw={a[0]!r} image={a[1]!r} back={a[2]!r} bounds={bdesc}")
+        sigs.append("rt")
+    if notes["saturated_points"]:
+        sigs.append("sat")
+    if notes["interior_points"]:
+        sigs.append("interior")
     for f in fails:
         f.setdefault("features", feats)
     return {"fails": fails, "sig": "transform:" + ",".join(sigs) + "|" + ",".join(sorted({f["sub"] for f in fails})), "features": feats,
-            "ops": 2, "notes": notes, "nontrivial": x.numel() > 0}
+            "ops": 2 * (1 + xs.numel() // block), "notes": notes, "nontrivial": xs.numel() > 0}
 
 
 def _ref_derivative(cfg, lo, hi, X):
@@ -476,6 +512,7 @@ def find_accessors(cls, vn, pname, pub):
                 c = root.constraint_for_parameter_name(pname)
                 lo, hi = bounds_of(c)
                 v1 = _interior(lo, hi, 0.41)
+                setattr(owner, pub, torch.as_tensor(_interior(lo, hi, 0.67), dtype=F64))
                 old = getattr(anc, q)
                 setattr(owner, pub, torch.as_tensor(v1, dtype=F64))
                 new = getattr(anc, q)
@@ -574,9 +611,12 @@ def history_cells(tier):
     targets, _, _ = discover_targets()
     depth = 2 if tier == "quick" else 3
     out = []
+    have_ba = {(t["owner_cls"], t["raw"]) for t in targets if t["variant"] == "batch_ard"}
     for t in targets:
         if t["pub"] is None:
             continue
+        if tier == "quick" and t["variant"] in ("batch", "ard") and (t["owner_cls"], t["raw"]) in have_ba:
+            continue  # quick: the plain and the batch+ARD shape of each parameter; thorough: every shape
         for op in ALPHABET:
             out.append({"what": "history", "target": t, "first": op, "depth": depth})
     return out
@@ -742,6 +782,20 @@ class HistoryRun:
                 self.fail(sub, f"value after {hist[-1].split(':')[0]} != expected err={msg}", hist,
                           f"got={got.reshape(-1)[:3].tolist()} want={np.asarray(want).reshape(-1)[:3].tolist()}")
 
+    def ulp_note(self, root, pm, raw=None, value=None):
+        """characterise a rejection: does the library's own transform of the raw value overshoot the upper bound by <= 2 ulp?"""
+        try:
+            c = root.constraint_for_parameter_name(self.t["pname"])
+            with torch.no_grad():
+                rawt = torch.as_tensor(raw, dtype=F64) if raw is not None else c.inverse_transform(torch.as_tensor(value, dtype=F64))
+                ex = float((c.transform(rawt) - c.upper_bound).max())
+            fin = [abs(float(b)) for b in (pm.lo.max(), pm.hi.min()) if math.isfinite(b)]
+            if 0 < ex <= 2 * _ulp_at(max(fin + [0.0]), F64):
+                return " [transform(raw) exceeds upper by <= 2 ulp at saturation]"
+        except Exception:  # noqa: BLE001
+            pass
+        return ""
+
     def resync(self, root, pm):
         pm.raw = np.broadcast_to(self.lib_raw(root), pm.shape).copy()
 
@@ -786,7 +840,8 @@ class HistoryRun:
             if inb:
                 if raised is not None:
                     what = {"set:lower": "of exactly the lower bound ", "set:upper": "of exactly the upper bound "}.get(op, "")
-                    self.fail("accept", f"in-bounds assignment {what}rejected: {util.exc_str(raised)[:120]}", hist, f"value={vnp.reshape(-1)[:3].tolist()}")
+                    self.fail("accept", f"in-bounds assignment {what}rejected{self.ulp_note(root, pm, value=vnp)}: {util.exc_str(raised)[:100]}", hist,
+                              f"value={vnp.reshape(-1)[:3].tolist()}")
                     self.resync(root, pm)
                     self.check_state(root, pm, hist, compare_model=False)
                     return
@@ -831,7 +886,8 @@ class HistoryRun:
                     err = e
                     break
             if err is not None:
-                self.fail("accept", f"initialize(raw=finite) rejected: {util.exc_str(err)[:120]}", hist, f"raw={rnp.reshape(-1)[:2].tolist()}")
+                self.fail("accept", f"initialize(raw=finite) rejected{self.ulp_note(root, pm, raw=rnp)}: {util.exc_str(err)[:100]}", hist,
+                          f"raw={rnp.reshape(-1)[:2].tolist()}")
                 return
             pm.raw = rnp.copy()
             self.check_state(root, pm, hist)
@@ -1149,7 +1205,7 @@ def module_prior_cells(tier):
     _, _, prior_args = discover_targets()
     out = []
     for entry, kwarg in prior_args:
-        for vn in ("plain", "batch_ard", "batch", "ard", "rank1"):
+        for vn in (("plain", "batch_ard", "rank1") if tier == "quick" else ("plain", "batch_ard", "batch", "ard", "rank1")):
             try:
                 construct(class_by_name(entry), variant_kwargs(vn))
             except Exception:
@@ -1184,6 +1240,28 @@ def make_prior(kind, c, spread, shape):
     raise KeyError(kind)
 
 
+def _quiet_construct(cls, kw):
+    logging.disable(logging.WARNING)  # SpectralMixtureKernel logs 'Priors not implemented' on the root logger
+    try:
+        return construct(cls, kw)
+    finally:
+        logging.disable(logging.NOTSET)
+
+
+def _find_pub(owner, val, hints):
+    """name of the public attribute (property or parameter) of `owner` whose value the closure returns"""
+    names = [h for h in hints if h] + sorted(n for n in dir(type(owner)) if isinstance(getattr(type(owner), n, None), property)
+                                             and not n.startswith("_")) + [n for n in owner._parameters]
+    for n in names:
+        try:
+            cur = getattr(owner, n)
+        except Exception:  # noqa: BLE001
+            continue
+        if torch.is_tensor(cur) and cur.shape == val.shape and torch.equal(cur.detach(), val.detach()):
+            return n
+    return None
+
+
 def run_module_prior(cell, seed):
     what = cell["what"]
     fails = Fails()
@@ -1193,6 +1271,9 @@ def run_module_prior(cell, seed):
     g = util.gen(seed, "c17|mp|" + util.jdump({k: cell[k] for k in ("entry", "variant", "kwarg", "prior", "pshape")}))
     notes = {}
 
+    def rnd(shape):
+        return util.rand(g, *shape).numpy() if len(shape) else util.rand(g, 1).numpy()[0]
+
     def done(sig, nontrivial=True):
         for f in fails:
             f.setdefault("features", feats)
@@ -1200,121 +1281,151 @@ def run_module_prior(cell, seed):
                 "notes": notes, "nontrivial": nontrivial}
 
     base_kw = variant_kwargs(cell["variant"])
-    plain = construct(cls, base_kw)
     kwarg = cell["kwarg"]
-    # which public value does this prior argument govern?  (`x_prior` -> property / parameter `x`; matrix priors have no such name)
     stem = kwarg[:-6] if kwarg.endswith("_prior") else None
-    matrix_prior = cell["prior"] == "LKJCovariancePrior"
-    # --- build the prior
-    pub_candidates = [s for s in ([stem] if stem else []) if hasattr(plain, s)]
-    if matrix_prior:
-        if stem is not None and pub_candidates:
-            return done("n/a-matrix-prior-on-elementwise-parameter", False)
+    # --- probe: what does a prior passed through this argument get registered on?  (elementwise parameter or a covariance matrix)
+    probe_m, probe = None, None
+    for mk in (lambda: GP.NormalPrior(0.0, 1.0), lambda: GP.LKJCovariancePrior(2, 2.0, GP.SmoothedBoxPrior(0.05, 4.0, 0.05))):
         try:
-            n = 2
-            prior = GP.LKJCovariancePrior(n, 2.0, GP.SmoothedBoxPrior(0.05, 4.0, 0.05))
-            m = construct(cls, dict(base_kw, **{kwarg: prior}))
+            probe = mk()
+            probe_m = _quiet_construct(cls, dict(base_kw, **{kwarg: probe}))
+            break
+        except Exception:  # noqa: BLE001
+            probe_m = None
+    if probe_m is None:
+        notes["construct_refused"] = 1
+        return done("construct-refused", False)
+    regs = [(nm, mod, clo) for nm, mod, pr, clo, sclo in probe_m.named_priors() if pr is probe]
+    if not regs:
+        notes["prior_not_registered"] = 1  # e.g. SpectralMixtureKernel: 'Priors not implemented' (logged refusal)
+        return done("not-registered", False)
+    any_checked = False
+    for reg_i, (full, p_owner, p_closure) in enumerate(regs):
+        local = full.split(".")[-1]
+        opath = full.split(".")[:-1]
+        f2 = dict(feats, prior_name=local, owner=type(p_owner).__name__)
+        nf = len(fails)
+        try:
+            pval = p_closure(p_owner)
         except Exception as e:  # noqa: BLE001
-            notes["construct_refused"] = 1
-            return done("construct-refused:" + type(e).__name__, False)
-        ref = None
-    else:
-        if not pub_candidates:
-            # scalar priors on matrix-valued closures (IndexKernel prior, task_covar_prior, task_prior): not meaningful
-            return done("n/a-elementwise-prior-on-matrix-closure", False)
-        pub = pub_candidates[0]
-        cur = getattr(plain, pub)
-        if not torch.is_tensor(cur):
-            return done("n/a-not-a-tensor", False)
-        shape = tuple(cur.shape)
-        cname = None
-        for pname, p, c in plain.named_parameters_and_constraints():
-            if pname in ("raw_" + pub, pub):
-                cname = c
-        lo, hi = bounds_of(cname)
+            fails.add("closure-value", "closure raises " + util.exc_str(e)[:150], "")
+            fails[-1]["features"] = f2
+            continue
+        if not torch.is_tensor(pval):
+            fails.add("closure-value", f"closure returns {type(pval).__name__}, not the parameter value err=1", "")
+            fails[-1]["features"] = f2
+            continue
+        is_matrix = pval.dim() >= 2 and pval.shape[-1] == pval.shape[-2] and pval.shape[-1] >= 2 and \
+            _find_pub(p_owner, pval, [stem, local[:-6] if local.endswith("_prior") else None]) is None
+        if is_matrix != (cell["prior"] == "LKJCovariancePrior"):
+            notes["prior_kind_not_applicable"] = 1
+            continue
+        # ------------------------------------------------------------------------------------------------ matrix-valued closure
+        if is_matrix:
+            n = int(pval.shape[-1])
+            if cell["pshape"] == "full":
+                continue
+            try:
+                prior = GP.LKJCovariancePrior(n, 2.0, GP.SmoothedBoxPrior(0.05, 4.0, 0.05))
+                m = _quiet_construct(cls, dict(base_kw, **{kwarg: prior}))
+            except Exception:  # noqa: BLE001
+                notes["construct_refused"] = 1
+                continue
+            mine = [(nm, mod, clo, sclo) for nm, mod, pr, clo, sclo in m.named_priors() if pr is prior and nm == full]
+            if not mine:
+                continue
+            _, owner, closure, sclosure = mine[0]
+            any_checked = True
+            with fails.guard("closure-density" if what == "prior-closure" else "sample"):
+                if what == "sample-from-prior":
+                    if sclosure is None:
+                        try:
+                            torch.manual_seed(7)
+                            owner.sample_from_prior(local)
+                            fails.add("sample", "sample_from_prior on a prior without setting closure did not raise err=1", "")
+                        except RuntimeError:
+                            notes["no_setting_closure"] = 1
+                    else:
+                        notes["matrix_setting_closure_unchecked"] = 1
+                else:
+                    val = closure(owner)
+                    got = pr_lp = prior.log_prob(val)
+                    V = val.detach().numpy()
+                    sd = np.sqrt(np.diagonal(V, axis1=-2, axis2=-1))
+                    Rm = V / sd[..., :, None] / sd[..., None, :]
+                    if n == 2:  # Cholesky-factor density and |R|^(eta-1) coincide for n = 2: absolute value incl. the LKJ normaliser
+                        want = R.lkj_corr_unnormalised(Rm, 2.0) - R.lkj_log_normaliser(2, 2.0) + R.logpdf_smoothed_box(sd, 0.05, 4.0, 0.05).sum(-1)
+                        fails.check_close("closure-density", got.detach(), torch.as_tensor(np.asarray(want)), 1e-8, 1e-8,
+                                          "LKJCovariancePrior(2, 2.0, SmoothedBox) on the module's covariance closure")
+                    # the closure is the documented task covariance: B B^T + diag(v)
+                    if hasattr(owner, "covar_factor") and hasattr(owner, "var"):
+                        Bf = owner.covar_factor.detach()
+                        fails.check_close("closure-value", val.detach(), Bf @ Bf.mT + torch.diag_embed(owner.var.detach()), 1e-12, 1e-12,
+                                          "closure != covar_factor covar_factor^T + diag(var)")
+                    notes["matrix_closures"] = notes.get("matrix_closures", 0) + 1
+            for f in fails[nf:]:
+                f["features"] = f2
+            continue
+        # ------------------------------------------------------------------------------------------------ elementwise parameter
+        pub = _find_pub(p_owner, pval, [stem, local[:-6] if local.endswith("_prior") else None,
+                                        local[4:-6] if local.startswith("raw_") and local.endswith("_prior") else None])
+        if pub is None:
+            notes["no_public_name"] = 1
+            continue
+        f2["pub"] = pub
+        shape = tuple(pval.shape)
+        cons = p_owner.constraint_for_parameter_name("raw_" + pub) if ("raw_" + pub) in p_owner._parameters else None
+        lo, hi = bounds_of(cons)
         c0 = _interior(lo, hi, 0.45)
         spread = min(1.0, (float(np.min(hi)) - float(np.max(lo))) if (lo is not None and np.isfinite(lo).all() and np.isfinite(hi).all()) else 1.0)
         if cell["pshape"] == "full":
             if int(np.prod(shape)) < 2:
-                return done("n/a-single-element", False)
-            cc = c0 * (1 + 0.05 * util.rand(g, *shape).numpy())
+                continue
+            cc = c0 * (1 + 0.05 * rnd(shape))
         else:
             cc = c0
         try:
             if cell["prior"] == "MultivariateNormalPrior":
                 d = shape[-1] if shape else 0
                 if d < 2 or cell["pshape"] == "full":
-                    return done("n/a-mvn-needs-vector", False)
+                    continue
                 cov = 1e-4 * spread ** 2 * util.spd(g, d).numpy()
                 loc = np.full(d, c0)
                 prior = GP.MultivariateNormalPrior(_T(loc), covariance_matrix=_T(cov))
-                ref = lambda v: R.logpdf_mvn(v, loc, cov)  # noqa: E731  per-event
+                ref = lambda v, loc=loc, cov=cov: R.logpdf_mvn(v, loc, cov)  # noqa: E731  per-event
             else:
                 prior, ref = make_prior(cell["prior"], cc, spread, shape)
-            m = construct(cls, dict(base_kw, **{kwarg: prior}))
         except Exception as e:  # noqa: BLE001
+            fails.add("harness", "cannot build prior " + util.exc_str(e), "")
+            continue
+        # domain: a prior with event shape e applies to values whose trailing dimensions are e (torch.distributions convention)
+        ev = tuple(prior.event_shape)
+        if ev and tuple(shape[len(shape) - len(ev):]) != ev:
+            notes["event_shape_mismatch"] = notes.get("event_shape_mismatch", 0) + 1
+            continue
+        try:
+            m = _quiet_construct(cls, dict(base_kw, **{kwarg: prior}))
+        except Exception:  # noqa: BLE001
             notes["construct_refused"] = 1
-            return done("construct-refused:" + type(e).__name__, False)
-    regs = [(nm, mod, pr, clo, sclo) for nm, mod, pr, clo, sclo in m.named_priors() if pr is prior]
-    if not regs:
-        notes["prior_not_registered"] = 1  # e.g. SpectralMixtureKernel: 'Priors not implemented' (logged refusal)
-        return done("not-registered", False)
-    for full, owner, pr, closure, sclosure in regs:
-        local = full.split(".")[-1]
-        f2 = dict(feats, prior_name=local, owner=type(owner).__name__)
-        nf = len(fails)
-        if matrix_prior:
-            with fails.guard("closure-density"):
-                val = closure(owner)
-                if not torch.is_tensor(val):
-                    fails.add("closure-density", f"closure returns {type(val).__name__}, not the parameter value", "")
-                    continue
-                if what == "sample-from-prior":
-                    try:
-                        torch.manual_seed(7)
-                        owner.sample_from_prior(local)
-                        fails.add("sample", "sample_from_prior on a prior without setting closure did not raise err=1", "")
-                    except RuntimeError:
-                        notes["no_setting_closure"] = 1
-                    continue
-                got = pr.log_prob(val)
-                V = val.detach().numpy()
-                sd = np.sqrt(np.diagonal(V, axis1=-2, axis2=-1))
-                Rm = V / sd[..., :, None] / sd[..., None, :]
-                # n = 2: Cholesky-factor density and |R|^(eta-1) coincide up to a constant; compare against torch-free closed form + constant
-                want = R.lkj_corr_unnormalised(Rm, 2.0) - R.lkj_log_normaliser(2, 2.0) + R.logpdf_smoothed_box(sd, 0.05, 4.0, 0.05).sum(-1)
-                fails.check_close("closure-density", got.detach(), torch.as_tensor(np.asarray(want)), 1e-8, 1e-8,
-                                  "LKJCovariancePrior on the module's covariance closure")
-                # the closure is the documented task covariance: B B^T + diag(v)  (IndexKernel) / F F^T + sigma^2 I (multitask likelihood)
-                if hasattr(owner, "covar_factor") and hasattr(owner, "var"):
-                    Bf = owner.covar_factor.detach()
-                    fails.check_close("closure-density", val.detach(), Bf @ Bf.mT + torch.diag_embed(owner.var.detach()), 1e-12, 1e-12,
-                                      "closure != covar_factor covar_factor^T + diag(var)")
-            for f in fails[nf:]:
-                f["features"] = f2
             continue
-        # elementwise priors -------------------------------------------------------------------------------------
-        pubname = pub
-        for cand in (local[:-6] if local.endswith("_prior") else local, (local[4:-6] if local.startswith("raw_") and local.endswith("_prior") else None)):
-            if cand and hasattr(owner, cand) and torch.is_tensor(getattr(owner, cand, None)):
-                pubname = cand
-        if not hasattr(owner, pubname):
-            notes["no_public_name"] = 1
+        mine = [(nm, mod, clo, sclo) for nm, mod, pr, clo, sclo in m.named_priors() if pr is prior and nm == full]
+        if not mine:
             continue
-        f2["pub"] = pubname
+        _, owner, closure, sclosure = mine[0]
+        any_checked = True
         if what == "prior-closure":
             with fails.guard("closure-density"):
-                target_shape = tuple(getattr(owner, pubname).shape)
-                v = np.broadcast_to(np.asarray(cc, float), target_shape) * (1 + 0.02 * (util.rand(g, *target_shape).numpy() - 0.5)) \
-                    if np.ndim(cc) and np.shape(cc) == target_shape else np.asarray(c0) * (1 + 0.02 * (util.rand(g, *target_shape).numpy() - 0.5))
-                owner.initialize(**{pubname: _T(v)})
+                base = np.broadcast_to(np.asarray(cc, float), shape) if np.shape(cc) == shape else np.full(shape, c0)
+                v = base * (1 + 0.02 * (rnd(shape) - 0.5))
+                owner.initialize(**{pub: _T(v)})
                 val = closure(owner)
-                fails.check_close("closure-value", val.detach(), getattr(owner, pubname).detach(), 0, 0, "closure(module) != public parameter value")
+                fails.check_close("closure-value", val.detach(), getattr(owner, pub).detach(), 0, 0, "closure(module) != public parameter value")
                 fails.check_close("closure-value", val.detach(), _T(v), 1e-12, 1e-8, "closure(module) != assigned (constrained) value")
-                got = pr.log_prob(val).sum().detach()
+                got = prior.log_prob(val).sum().detach()
                 want = np.asarray(ref(v)).sum()
                 fails.check_close("closure-density", got, torch.as_tensor(want), 1e-8, 1e-9,
-                                  f"sum log_prob(closure(module)) vs reference density at the public value of {pubname}")
+                                  f"sum log_prob(closure(module)) vs reference density at the public value of {pub}")
+                notes["closure_densities"] = notes.get("closure_densities", 0) + 1
         else:
             with fails.guard("sample"):
                 if sclosure is None:
@@ -1322,36 +1433,45 @@ def run_module_prior(cell, seed):
                         owner.sample_from_prior(local)
                         fails.add("sample", "sample_from_prior without setting closure did not raise err=1", "")
                     except RuntimeError:
-                        notes["no_setting_closure"] = 1
+                        notes["no_setting_closure"] = notes.get("no_setting_closure", 0) + 1
+                    for f in fails[nf:]:
+                        f["features"] = f2
                     continue
                 s = util.seed_for(seed, "sfp|" + util.jdump(f2))
                 torch.manual_seed(s)
-                draw = pr.sample().detach().clone()
-                cons = None
-                for pname, p, c in owner.named_parameters_and_constraints():
-                    if pname == "raw_" + pubname:
-                        cons = c
-                lo2, hi2 = bounds_of(cons)
-                lo2 = -np.inf if lo2 is None else lo2
-                hi2 = np.inf if hi2 is None else hi2
+                draw = prior.sample().detach().clone()
+                lo2 = -np.inf if lo is None else lo
+                hi2 = np.inf if hi is None else hi
                 d_np = draw.numpy()
                 with np.errstate(invalid="ignore"):
                     inb = bool(np.all((d_np >= lo2) & (d_np <= hi2)))
-                before = getattr(owner, pubname).detach().clone()
+                before = getattr(owner, pub).detach().clone()
                 torch.manual_seed(s)
                 try:
                     owner.sample_from_prior(local)
                     raised = None
                 except Exception as e:  # noqa: BLE001
                     raised = e
-                now = getattr(owner, pubname).detach()
+                now = getattr(owner, pub).detach().clone()
                 if inb:
                     if raised is not None:
-                        fails.add("sample", f"sample_from_prior raises for an in-bounds draw: {util.exc_str(raised)[:150]}", f"draw={d_np.reshape(-1)[:3].tolist()}")
+                        # independent judge of the domain: does the plain public assignment of the very same tensor work?
+                        twin = _quiet_construct(cls, dict(base_kw, **{kwarg: prior}))
+                        t_owner = resolve(twin, opath)
+                        try:
+                            t_owner.initialize(**{pub: draw})
+                            setter_ok = True
+                        except Exception:  # noqa: BLE001
+                            setter_ok = False
+                        if setter_ok:
+                            fails.add("sample", f"sample_from_prior raises for an in-bounds draw that the public setter accepts: {util.exc_str(raised)[:150]}",
+                                      f"draw={d_np.reshape(-1)[:3].tolist()}")
+                        else:
+                            notes["draw_shape_refused_by_setter"] = notes.get("draw_shape_refused_by_setter", 0) + 1
                     else:
                         notes["samples_stored"] = notes.get("samples_stored", 0) + 1
                         try:
-                            want = draw.expand_as(now) if draw.dim() <= now.dim() else draw.reshape(now.shape)
+                            want = draw.expand_as(now)
                         except RuntimeError:
                             want = draw.reshape(now.shape) if draw.numel() == now.numel() else draw
                         ok, msg = util.close(now, want, 1e-12, 1e-8)
@@ -1367,7 +1487,7 @@ def run_module_prior(cell, seed):
                         fails.add("sample", "rejected draw changed the parameter err=1", "")
         for f in fails[nf:]:
             f["features"] = f2
-    return done("checked:" + ",".join(sorted(notes)))
+    return done("checked:" + ",".join(sorted(notes)), any_checked)
 
 
 # ======================================================================================================================
@@ -1389,3 +1509,21 @@ def run_cell(cell, seed):
     if what == "prior-density":
         return run_prior_density(cell, seed)
     return run_module_prior(cell, seed)
+
+
+def main(ctx):
+    targets, not_constructible, prior_args = discover_targets()
+    cs = cells(ctx.tier, ctx.seed)
+    ctx.extra["cells_enumerated"] = len(cs)
+    ctx.extra["cells_by_kind"] = {k: sum(1 for c in cs if c["what"] == k) for k in sorted({c["what"] for c in cs})}
+    ctx.extra["constrained_parameter_targets"] = len([t for t in targets if t["pub"]])
+    ctx.extra["constrained_without_public_setter"] = [f"{t['owner_cls']}.{t['raw']}" for t in targets if not t["pub"]]
+    ctx.extra["not_constructible"] = not_constructible
+    ctx.extra["prior_arguments"] = len(prior_args)
+    ctx.bound = {"history_depth": 2 if ctx.tier == "quick" else 3, "float32_stride": 4096 if ctx.tier == "quick" else 16,
+                 "alphabet": len(ALPHABET)}
+    # long cells first so that the pool drains evenly
+    order = sorted(range(len(cs)), key=lambda i: {"transform": 0, "history": 1}.get(cs[i]["what"], 2))
+    ctx.map("run_cell", [cs[i] for i in order], chunksize=1 if ctx.tier == "thorough" else 4)
+    if ctx.notes.get("interior_points", 0) == 0 or ctx.notes.get("samples_stored", 0) == 0 or ctx.notes.get("accepted_sets", 0) == 0:
+        ctx.cap("vacuity: a sub-check never ran (interior round trips / stored samples / accepted assignments)")
